@@ -148,3 +148,5 @@ def check(ctx):
     r_capture(ctx)
     r_names_raw(ctx)
     r_parens(ctx)
+    from . import c10
+    c10.r_lookup_ast(ctx)   # renaming-invariance of acceptance needs innermost-first lookup at type-check time
